@@ -106,7 +106,12 @@ func nativeReplay(hroot, pkg, pkgName string, harnessNames []string, items []rep
 	var tb strings.Builder
 	fmt.Fprintf(&tb, "package %s\n\nimport (\n\t\"testing\"\n\tzz \"%s/zzverif\"\n)\n\n", pkgName, modPath)
 	tb.WriteString("func TestZZReplay(t *testing.T) {\n\tzz.NativeRunAll(map[string]func(){\n")
+	seenName := map[string]bool{}
 	for _, h := range harnessNames {
+		if seenName[h] {
+			continue
+		}
+		seenName[h] = true
 		fmt.Fprintf(&tb, "\t\t%q: %s,\n", h, h)
 	}
 	tb.WriteString("\t})\n}\n")
